@@ -206,6 +206,10 @@ func configFor(v mach.Variant, idx int, r *rng.R) mach.Config {
 	if r != nil && r.Chance(1, 4) {
 		c.EU, c.WU, c.Cores = r.Range(1, 4), r.Range(1, 4), r.Range(1, 4)
 	}
+	if r != nil && v >= mach.MVP70 && r.Chance(1, 4) {
+		// single-core runs of the coherent variants: the cache hierarchy without cross-core effects
+		c.Cores = 1
+	}
 	return c.Normalize()
 }
 
